@@ -53,6 +53,41 @@ def run(ck):
                 viol.append(dict(kind='table', argv=argv, observed='%s %s' % (o, det), field=f['name'], cls=c))
             elif o != want:
                 dis.append(dict(why='table entry %s/%s: implementation %s, model %s' % (f['name'], c, o, want), argv=argv))
+    # 1a. every cell once more with a second, valid copy of the same option before / after the malformed one
+    for f in c20table.FIELDS:
+        for c in c20table.CLASSES:
+            for order in (0, 1):
+                argv = c20table.paired(f, c, order)
+                if argv is None:
+                    continue
+                o, det = fuzzcmd.outcome(argv, limit=60)
+                ck.case(('pair', f['name'], c, order), True)
+                ck.count('pair_' + o)
+                if o not in ('usage', 'diag', 'report', 'timeout'):
+                    viol.append(dict(kind='pair', argv=argv, observed='%s %s' % (o, det), field=f['name'], cls=c))
+    # 1b. output-file stage, exhaustively: option x path class (and the load combination BASIC cannot express)
+    import os
+    base = ['-f', '7', '-w', '6,0,0,0,0,0,10,.01', '--excitation-pulse=2']
+    mixed = ['--load=50+5j', '--attach-load=1,1', '--laplace-load-a=1,2e-6', '--laplace-load-b=1,1e-6', '--attach-load=2,4']
+    good, nodir, isdir = fuzzcmd.OUTPATHS[0], fuzzcmd.OUTPATHS[2], fuzzcmd.OUTPATHS[3]
+    ro = os.path.join(fuzzcmd.OUTDIR, 'ro'); os.makedirs(ro, exist_ok=True)
+    for opt in ('--output-basic-input=', '--output-cmdline='):
+        for path, exc in ((good, 'written'), (nodir, 'FileNotFoundError'), (isdir, 'IsADirectoryError')):
+            for extra in ([], mixed):
+                argv = base + extra + [opt + path]
+                e = exc
+                if extra and exc == 'written' and 'basic' in opt:
+                    e = 'NotImplementedError'
+                o, det = fuzzcmd.outcome(argv, limit=60)
+                want = d.ask('guard output', e)
+                want = 'report' if want == 'continue' else want
+                ncell += 1
+                ck.case(('output', opt, e, bool(extra)), True)
+                ck.count('output_' + o)
+                if o not in ('usage', 'diag', 'report'):
+                    viol.append(dict(kind='output', argv=argv, observed='%s %s' % (o, det)))
+                elif o != want:
+                    dis.append(dict(why='output stage %s%s: implementation %s, model %s' % (opt, e, o, want), argv=argv))
     ck.stats['table_cells'] = ncell
     ck.cov['exhaustive'] = True
     # 2. fuzzing stream
